@@ -80,5 +80,12 @@ CHECKS["C12"] = dict(
     note="A2; recovery durations {2s,10s}",
     parts=[dict(bin="vh", part="cb", shards=16, budget=dict(quick=100, thorough=1500))])
 
+CHECKS["C18"] = dict(
+    level="model_checking", engine="enum+sched", design_ref="DESIGN.md §5 C18",
+    technique="bounded-exhaustive program x history enumeration on the real CircuitBreaker (all histories up to a depth from fresh + De Bruijn covering runs) against a three-valued reference evaluator",
+    text="Every generated condition expression (all atoms over the three metric functions and six comparisons, compounds with one and two connectives, with and without parentheses) x check period is run on the real breaker over every history up to the depth bound and over a sequence containing every operation window; each evaluation's trip decision must match the reference under the tightest and loosest window reading; OnTripped/OnStandby counts equal the observed transitions.",
+    note="goroutines spawned by the breaker are queued and run deterministically (overlay); windows read as 9..10s / 50s..since-trip; quantile rank +-1",
+    parts=[dict(bin="vsched", part="c18", shards=16, budget=dict(quick=100, thorough=1500))])
+
 NOT_APPLICABLE = [dict(property_id=p, reason="check not built yet in this revision (work in progress; see DESIGN.md for the plan)")
                   for p in ALL if p not in CHECKS]
